@@ -1,4 +1,899 @@
-#[allow(dead_code, unused_imports, unused_variables, unused_mut)]
+// C16 — link-layer addressing on Ethernet: a unicast IP packet only ever goes to the hardware address learned
+// for its next hop; on a miss nothing is sent to a guessed address, discovery is rate limited to one request per
+// second, the cache is filled only from validated ARP / NDISC, socket data stays queued.
+// Spliced into src/iface/interface/mod.rs (child of `iface::interface`).
+//
+// State: a real `Interface::new` on an Ethernet device, own addresses through `update_ip_addrs`, then
+//   * neighbor cache: <= 3 `fill_with_expiration` calls with pairwise distinct symbolic unicast keys, symbolic unicast
+//     hardware addresses and expiries, one `limit_rate` (symbolic silent_until) - the fields of `Cache` are private
+//     to `iface::neighbor`, so the cache is built AND observed through its API: `lookup(p, t)` for universally
+//     quantified (p, t) characterises the whole cache (entries, expiries, silent_until);
+//   * routes: <= 2 symbolic routes through `routes_mut().update`;
+//   * `now`: symbolic instant (microseconds) given to `Interface::new`.
+// INV_nc (neighbor_cache.rs): expires_at <= now + 60 s, silent_until <= now + 1 s.
+//
+// Rate limit, one-step inductive argument (ghost L = instant of the latest ARP request / neighbor solicitation):
+//   J:  silent_until >= L + 1 s.
+//   A request is emitted at `now` only if `now >= silent_until` (asserted: prop:c16_request_only_when_not_silent), so
+//   now - L >= 1 s; afterwards silent_until = now + 1 s = L' + 1 s (asserted: prop:c16_silent_until_set_after_request),
+//   so J holds again.  Nothing else writes silent_until (only `limit_rate`, called only after a request; `flush`
+//   keeps it: nc_rate_limit) and `now` never decreases, hence any two requests are >= 1 s apart.
+//   `lookup_hw_addr_step` assumes J for a symbolic L and asserts both facts.
+#[allow(dead_code, unused_imports, unused_variables, unused_mut, unused_assignments)]
 mod v_iface_neighbor {
     use super::*;
+    use crate::iface::SocketStorage;
+    use crate::verif_common::*;
+    use crate::verif_dev::{CapDev, CapTx, NullDev, TxState};
+
+    const T_MAX: i64 = 1i64 << 50; // microseconds
+    const SEC: i64 = 1_000_000;
+
+    /// capture buffer: IPv4 UDP frame 46, ARP 42; IPv6 UDP frame 66, neighbor solicitation 86
+    #[cfg(not(feature = "proto-ipv6"))]
+    const CAP: usize = 64;
+    #[cfg(feature = "proto-ipv6")]
+    const CAP: usize = 96;
+
+    const OWN_MAC: EthernetAddress = EthernetAddress([0x02, 0x00, 0x00, 0x00, 0x00, 0x01]);
+    #[cfg(feature = "proto-ipv4")]
+    const OWN4: Ipv4Address = Ipv4Address::new(192, 168, 1, 1);
+    #[cfg(feature = "proto-ipv4")]
+    const OWN4B: Ipv4Address = Ipv4Address::new(10, 0, 0, 5);
+    #[cfg(feature = "proto-ipv6")]
+    const OWN6_LL: Ipv6Address = Ipv6Address::new(0xfe80, 0, 0, 0, 0, 0, 0, 1);
+    #[cfg(feature = "proto-ipv6")]
+    const OWN6_G: Ipv6Address = Ipv6Address::new(0x2001, 0xdb8, 0, 0, 0, 0, 0, 1);
+
+    // ------------------------------------------------------------------ symbolic values
+    #[cfg(feature = "proto-ipv4")]
+    fn any_v4() -> IpAddress {
+        let o: [u8; 4] = kani::any();
+        IpAddress::Ipv4(Ipv4Address::from(o))
+    }
+    #[cfg(feature = "proto-ipv6")]
+    fn any_v6() -> IpAddress {
+        let o: [u8; 16] = kani::any();
+        IpAddress::Ipv6(Ipv6Address::from(o))
+    }
+    fn any_addr() -> IpAddress {
+        #[cfg(all(feature = "proto-ipv4", feature = "proto-ipv6"))]
+        let a = if kani::any() { any_v4() } else { any_v6() };
+        #[cfg(all(feature = "proto-ipv4", not(feature = "proto-ipv6")))]
+        let a = any_v4();
+        #[cfg(all(not(feature = "proto-ipv4"), feature = "proto-ipv6"))]
+        let a = any_v6();
+        a
+    }
+    fn any_unicast() -> IpAddress {
+        let a = any_addr();
+        kani::assume(a.is_unicast());
+        a
+    }
+    fn any_hw() -> HardwareAddress {
+        let o: [u8; 6] = kani::any();
+        kani::assume(o[0] & 1 == 0);
+        HardwareAddress::Ethernet(EthernetAddress(o))
+    }
+    fn any_instant(lo: i64, hi: i64) -> Instant {
+        let t: i64 = kani::any();
+        kani::assume(t >= lo && t <= hi);
+        Instant::from_micros(t)
+    }
+    fn max_prefix(a: &IpAddress) -> u8 {
+        match a {
+            #[cfg(feature = "proto-ipv4")]
+            IpAddress::Ipv4(_) => 32,
+            #[cfg(feature = "proto-ipv6")]
+            IpAddress::Ipv6(_) => 128,
+        }
+    }
+    fn plus(t: Instant, us: i64) -> Instant {
+        Instant::from_micros(t.total_micros() + us)
+    }
+
+    // ------------------------------------------------------------------ ghost model of the neighbor cache
+    #[derive(Clone, Copy)]
+    struct E {
+        valid: bool,
+        ip: IpAddress,
+        hw: HardwareAddress,
+        exp: Instant,
+    }
+    #[derive(Clone, Copy)]
+    struct Model {
+        e: [E; 3],
+        n: usize,
+        silent: Instant,
+    }
+    fn m_lookup(m: &Model, p: &IpAddress, t: Instant) -> NeighborAnswer {
+        let mut r = None;
+        if m.e[0].valid && m.e[0].ip == *p && t < m.e[0].exp {
+            r = Some(m.e[0].hw);
+        }
+        if m.e[1].valid && m.e[1].ip == *p && t < m.e[1].exp {
+            r = Some(m.e[1].hw);
+        }
+        if m.e[2].valid && m.e[2].ip == *p && t < m.e[2].exp {
+            r = Some(m.e[2].hw);
+        }
+        match r {
+            Some(h) => NeighborAnswer::Found(h),
+            None if t < m.silent => NeighborAnswer::RateLimited,
+            None => NeighborAnswer::NotFound,
+        }
+    }
+    fn m_key_index(m: &Model, p: &IpAddress) -> Option<usize> {
+        if m.e[0].valid && m.e[0].ip == *p {
+            Some(0)
+        } else if m.e[1].valid && m.e[1].ip == *p {
+            Some(1)
+        } else if m.e[2].valid && m.e[2].ip == *p {
+            Some(2)
+        } else {
+            None
+        }
+    }
+
+    /// arbitrary INV_nc cache contents at `now`, written through the cache's public API
+    fn any_cache_into(c: &mut NeighborCache, now: Instant) -> Model {
+        let n = any_le(3);
+        let hi = now.total_micros() + 60 * SEC;
+        let e0 = E { valid: n >= 1, ip: any_unicast(), hw: any_hw(), exp: any_instant(0, hi) };
+        let e1 = E { valid: n >= 2, ip: any_unicast(), hw: any_hw(), exp: any_instant(0, hi) };
+        let e2 = E { valid: n >= 3, ip: any_unicast(), hw: any_hw(), exp: any_instant(0, hi) };
+        kani::assume(e0.ip != e1.ip && e0.ip != e2.ip && e1.ip != e2.ip);
+        if e0.valid {
+            c.fill_with_expiration(e0.ip, e0.hw, e0.exp);
+        }
+        if e1.valid {
+            c.fill_with_expiration(e1.ip, e1.hw, e1.exp);
+        }
+        if e2.valid {
+            c.fill_with_expiration(e2.ip, e2.hw, e2.exp);
+        }
+        let silent = any_instant(0, now.total_micros() + SEC);
+        if silent.total_micros() != 0 {
+            c.limit_rate(plus(silent, -SEC));
+        }
+        Model { e: [e0, e1, e2], n, silent }
+    }
+
+    /// the whole observable cache equals the model: for ALL addresses and instants (p, t symbolic)
+    fn assert_cache_is(c: &NeighborCache, m: &Model, now: Instant) {
+        let p = any_unicast();
+        let t = any_instant(-1, T_MAX + 120 * SEC);
+        assert!(c.lookup(&p, t) == m_lookup(m, &p, t), "prop:c16_cache_and_rate_limit_exactly_as_specified");
+        assert!(m.silent <= plus(now, SEC), "inv:nc_silent_until_at_most_1s_ahead");
+        let k = any_lt(3);
+        if m.e[k].valid {
+            assert!(m.e[k].exp <= plus(now, 60 * SEC), "inv:nc_expiry_at_most_60s_ahead");
+        }
+    }
+
+    /// model slot `e` is still stored with exactly its hardware address and expiry (observed through lookups)
+    fn kept(c: &NeighborCache, e: &E) -> bool {
+        c.lookup(&e.ip, plus(e.exp, -1)) == NeighborAnswer::Found(e.hw) && !c.lookup(&e.ip, e.exp).found()
+    }
+
+    /// post-model of `fill(ip, hw, now)` on model `m`, the evicted slot (if any) read off the real cache.
+    /// Asserts the eviction rule: only from a full cache, only for a new key, only the oldest expiry, only one.
+    fn model_after_fill(c: &NeighborCache, m: &Model, ip: IpAddress, hw: HardwareAddress, now: Instant) -> Model {
+        let mut m2 = *m;
+        let ne = E { valid: true, ip, hw, exp: plus(now, 60 * SEC) };
+        match m_key_index(m, &ip) {
+            Some(i) => m2.e[i] = ne,
+            None if m.n < 3 => {
+                m2.e[m.n] = ne;
+                m2.n = m.n + 1;
+            }
+            None => {
+                let g0 = !kept(c, &m.e[0]);
+                let g1 = !kept(c, &m.e[1]);
+                let g2 = !kept(c, &m.e[2]);
+                assert!(g0 as u8 + g1 as u8 + g2 as u8 <= 1, "prop:c16_eviction_removes_exactly_one_entry");
+                let oldest = |e: &E| e.exp <= m.e[0].exp && e.exp <= m.e[1].exp && e.exp <= m.e[2].exp;
+                if g0 {
+                    assert!(oldest(&m.e[0]), "prop:c16_evicts_entry_with_oldest_expiry");
+                    m2.e[0] = ne;
+                } else if g1 {
+                    assert!(oldest(&m.e[1]), "prop:c16_evicts_entry_with_oldest_expiry");
+                    m2.e[1] = ne;
+                } else if g2 {
+                    assert!(oldest(&m.e[2]), "prop:c16_evicts_entry_with_oldest_expiry");
+                    m2.e[2] = ne;
+                } else {
+                    assert!(false, "prop:c16_eviction_removes_exactly_one_entry");
+                }
+            }
+        }
+        m2
+    }
+
+    // ------------------------------------------------------------------ routes and the reference next hop
+    fn any_route() -> crate::iface::Route {
+        let net = any_addr();
+        let pl: u8 = kani::any();
+        kani::assume(pl <= max_prefix(&net));
+        let via = any_unicast();
+        crate::iface::Route {
+            cidr: IpCidr::new(net, pl),
+            via_router: via,
+            preferred_until: if kani::any() { Some(any_instant(0, T_MAX)) } else { None },
+            expires_at: if kani::any() { Some(any_instant(0, T_MAX)) } else { None },
+        }
+    }
+    /// independent reference for "addr lies in net/pl": the top `pl` bits agree
+    fn ref_contains(cidr: &IpCidr, a: &IpAddress) -> bool {
+        let pl = cidr.prefix_len() as u32;
+        match (cidr.address(), a) {
+            #[cfg(feature = "proto-ipv4")]
+            (IpAddress::Ipv4(n), IpAddress::Ipv4(a)) => {
+                let x = u32::from_be_bytes(n.octets()) ^ u32::from_be_bytes(a.octets());
+                pl == 0 || (x >> (32 - pl)) == 0
+            }
+            #[cfg(feature = "proto-ipv6")]
+            (IpAddress::Ipv6(n), IpAddress::Ipv6(a)) => {
+                let x = u128::from_be_bytes(n.octets()) ^ u128::from_be_bytes(a.octets());
+                pl == 0 || (x >> (128 - pl)) == 0
+            }
+            #[allow(unreachable_patterns)]
+            _ => false,
+        }
+    }
+    /// route live at `now` (the code's convention: dropped when now > expires_at) and covering `a`
+    fn usable(r: &crate::iface::Route, a: &IpAddress, now: Instant) -> bool {
+        let live = match r.expires_at {
+            Some(t) => now <= t,
+            None => true,
+        };
+        live && ref_contains(&r.cidr, a)
+    }
+    /// own networks of the harness interface
+    fn on_link(a: &IpAddress) -> bool {
+        match a {
+            #[cfg(feature = "proto-ipv4")]
+            IpAddress::Ipv4(a) => {
+                let o = a.octets();
+                o[0] == 192 && o[1] == 168 && o[2] == 1
+            }
+            #[cfg(feature = "proto-ipv6")]
+            IpAddress::Ipv6(a) => {
+                let o = a.octets();
+                let ll = o[0] == 0xfe && o[1] == 0x80 && o[2] == 0 && o[3] == 0 && o[4] == 0 && o[5] == 0 && o[6] == 0 && o[7] == 0;
+                let gl = o[0] == 0x20 && o[1] == 0x01 && o[2] == 0x0d && o[3] == 0xb8 && o[4] == 0 && o[5] == 0 && o[6] == 0 && o[7] == 0;
+                ll || gl
+            }
+        }
+    }
+    /// is `nh` an admissible next hop for `dst` (reference: dst itself if on-link, else gateway of a live matching
+    /// route of maximal prefix length; None if neither)
+    fn ref_next_hop_ok(nh: Option<IpAddress>, dst: &IpAddress, n: usize, r0: &crate::iface::Route, r1: &crate::iface::Route, now: Instant) -> bool {
+        if on_link(dst) {
+            return nh == Some(*dst);
+        }
+        let u0 = n >= 1 && usable(r0, dst, now);
+        let u1 = n >= 2 && usable(r1, dst, now);
+        match nh {
+            None => !u0 && !u1,
+            Some(g) => {
+                let best0 = u0 && (!u1 || r0.cidr.prefix_len() >= r1.cidr.prefix_len());
+                let best1 = u1 && (!u0 || r1.cidr.prefix_len() >= r0.cidr.prefix_len());
+                (best0 && g == r0.via_router) || (best1 && g == r1.via_router)
+            }
+        }
+    }
+
+    // ------------------------------------------------------------------ frame inspection (flat capture buffers)
+    fn eq_at(buf: &[u8; CAP], off: usize, want: &[u8]) -> bool {
+        let mut ok = true;
+        let mut i = 0;
+        while i < 16 {
+            if i < want.len() {
+                ok = ok && buf[off + i] == want[i];
+            }
+            i += 1;
+        }
+        ok
+    }
+    fn be16(buf: &[u8; CAP], off: usize) -> u16 {
+        ((buf[off] as u16) << 8) | buf[off + 1] as u16
+    }
+    fn hw_bytes(h: &HardwareAddress) -> [u8; 6] {
+        match h {
+            HardwareAddress::Ethernet(a) => a.0,
+            #[allow(unreachable_patterns)]
+            _ => [0xff; 6],
+        }
+    }
+
+    /// the frame is the discovery request for `nh`: ARP request / neighbor solicitation, sender = this interface,
+    /// target = nh, link-layer destination broadcast resp. the solicited-node multicast MAC.  It carries no datagram.
+    fn check_request_frame(buf: &[u8; CAP], len: usize, nh: &IpAddress) {
+        assert!(eq_at(buf, 6, &OWN_MAC.0), "prop:c16_request_sender_is_own_hardware_address");
+        match nh {
+            #[cfg(feature = "proto-ipv4")]
+            IpAddress::Ipv4(t) => {
+                assert!(len == 42, "prop:c16_miss_emits_only_an_arp_request");
+                assert!(eq_at(buf, 0, &[0xff; 6]), "prop:c16_arp_request_is_broadcast");
+                assert!(be16(buf, 12) == 0x0806, "prop:c16_miss_emits_only_an_arp_request");
+                assert!(be16(buf, 14) == 1 && be16(buf, 16) == 0x0800 && buf[18] == 6 && buf[19] == 4, "prop:c16_arp_request_well_formed");
+                assert!(be16(buf, 20) == 1, "prop:c16_miss_emits_only_an_arp_request");
+                assert!(eq_at(buf, 22, &OWN_MAC.0), "prop:c16_request_sender_is_own_hardware_address");
+                assert!(eq_at(buf, 28, &OWN4.octets()), "prop:c16_request_sender_is_own_protocol_address");
+                assert!(eq_at(buf, 38, &t.octets()), "prop:c16_request_targets_the_next_hop");
+            }
+            #[cfg(feature = "proto-ipv6")]
+            IpAddress::Ipv6(t) => {
+                let o = t.octets();
+                assert!(len == 86, "prop:c16_miss_emits_only_a_neighbor_solicitation");
+                assert!(eq_at(buf, 0, &[0x33, 0x33, 0xff, o[13], o[14], o[15]]), "prop:c16_solicitation_to_solicited_node_multicast_mac");
+                assert!(be16(buf, 12) == 0x86dd, "prop:c16_miss_emits_only_a_neighbor_solicitation");
+                assert!(buf[14] >> 4 == 6 && be16(buf, 18) == 32 && buf[20] == 58 && buf[21] == 255, "prop:c16_solicitation_well_formed");
+                let from_ll = eq_at(buf, 22, &OWN6_LL.octets());
+                let from_g = eq_at(buf, 22, &OWN6_G.octets());
+                assert!(from_ll || from_g, "prop:c16_request_sender_is_own_protocol_address");
+                if o[0] == 0xfe && o[1] == 0x80 {
+                    assert!(from_ll, "prop:c16_request_sender_is_own_protocol_address");
+                }
+                assert!(eq_at(buf, 38, &[0xff, 0x02, 0, 0, 0, 0, 0, 0, 0, 0, 0, 0x01, 0xff, o[13], o[14], o[15]]), "prop:c16_solicitation_to_solicited_node_group");
+                assert!(buf[54] == 135 && buf[55] == 0, "prop:c16_miss_emits_only_a_neighbor_solicitation");
+                assert!(eq_at(buf, 62, &o), "prop:c16_request_targets_the_next_hop");
+                assert!(buf[78] == 1 && buf[79] == 1 && eq_at(buf, 80, &OWN_MAC.0), "prop:c16_request_sender_is_own_hardware_address");
+            }
+        }
+    }
+
+    /// the frame carries the UDP datagram (src, dst, ports, 4 payload bytes) to hardware address `hw`
+    fn check_ip_frame(buf: &[u8; CAP], len: usize, hw: &HardwareAddress, src: &IpAddress, dst: &IpAddress, sport: u16, dport: u16, data: &[u8; 4]) {
+        assert!(eq_at(buf, 0, &hw_bytes(hw)), "prop:c16_frame_goes_to_learned_hardware_address_of_next_hop");
+        assert!(eq_at(buf, 6, &OWN_MAC.0), "prop:c16_frame_source_is_own_hardware_address");
+        let ip_off = 14;
+        let udp_off;
+        match (src, dst) {
+            #[cfg(feature = "proto-ipv4")]
+            (IpAddress::Ipv4(s), IpAddress::Ipv4(d)) => {
+                assert!(len == 46 && be16(buf, 12) == 0x0800, "prop:c16_hit_emits_the_datagram");
+                assert!(buf[14] == 0x45 && be16(buf, 16) == 32 && buf[23] == 17, "prop:c16_hit_emits_the_datagram");
+                assert!(eq_at(buf, 26, &s.octets()) && eq_at(buf, 30, &d.octets()), "prop:c16_hit_emits_the_datagram");
+                udp_off = 34;
+            }
+            #[cfg(feature = "proto-ipv6")]
+            (IpAddress::Ipv6(s), IpAddress::Ipv6(d)) => {
+                assert!(len == 66 && be16(buf, 12) == 0x86dd, "prop:c16_hit_emits_the_datagram");
+                assert!(buf[14] >> 4 == 6 && be16(buf, 18) == 12 && buf[20] == 17, "prop:c16_hit_emits_the_datagram");
+                assert!(eq_at(buf, 22, &s.octets()) && eq_at(buf, 38, &d.octets()), "prop:c16_hit_emits_the_datagram");
+                udp_off = 54;
+            }
+            #[allow(unreachable_patterns)]
+            _ => {
+                assert!(false, "prop:c16_hit_emits_the_datagram");
+                udp_off = 34;
+            }
+        }
+        assert!(be16(buf, udp_off) == sport && be16(buf, udp_off + 2) == dport && be16(buf, udp_off + 4) == 12, "prop:c16_hit_emits_the_datagram");
+        assert!(eq_at(buf, udp_off + 8, data), "prop:c16_datagram_payload_unmodified");
+    }
+
+    fn push_own_addrs(iface: &mut Interface, second: bool) {
+        iface.update_ip_addrs(|a| {
+            #[cfg(feature = "proto-ipv4")]
+            {
+                a.push(IpCidr::new(IpAddress::Ipv4(OWN4), 24)).unwrap();
+                if second && cfg!(not(feature = "proto-ipv6")) {
+                    a.push(IpCidr::new(IpAddress::Ipv4(OWN4B), 8)).unwrap();
+                }
+            }
+            #[cfg(all(feature = "proto-ipv6", not(feature = "proto-ipv4")))]
+            {
+                a.push(IpCidr::new(IpAddress::Ipv6(OWN6_LL), 64)).unwrap();
+                a.push(IpCidr::new(IpAddress::Ipv6(OWN6_G), 64)).unwrap();
+            }
+        });
+    }
+
+    macro_rules! eth_env {
+        ($dev:ident, $iface:ident, $now:ident, $second:expr) => {
+            let mut $dev = NullDev { medium: Medium::Ethernet, mtu: 1500, checksum: ChecksumCapabilities::ignored() };
+            let $now = any_instant(0, T_MAX);
+            let mut $iface = Interface::new(Config::new(HardwareAddress::Ethernet(OWN_MAC)), &mut $dev, $now);
+            push_own_addrs(&mut $iface, $second);
+        };
+    }
+
+    /// a unicast destination as `dispatch_ip` sees it: not multicast / unspecified / broadcast (limited or own subnet)
+    fn any_unicast_dst(iface: &Interface) -> IpAddress {
+        let d = any_unicast();
+        kani::assume(!iface.inner.is_broadcast(&d));
+        d
+    }
+
+    // ------------------------------------------------------------------ 3. next hop -> hardware address, one step
+    // @harness props=C16 cfg=KI4,KI6 tier=q to=900 mem=8 unwind=KI4:8,KI6:18 opts=nomem covers=7 funcs=InterfaceInner::lookup_hardware_addr;InterfaceInner::dispatch_ip;InterfaceInner::route;InterfaceInner::in_same_network;InterfaceInner::dispatch_ethernet;route::Routes::lookup;neighbor::Cache::lookup;neighbor::Cache::limit_rate bounds=Ethernet_interface_192.168.1.1/24_(IPv6:_fe80::1/64_+_2001:db8::1/64);_neighbor_cache_3_slots_holding_0..=3_entries_(any_unicast_keys,_addresses,_expiries),_any_silent_until;_0..=2_routes_(any_prefix,_gateway,_expiry);_any_unicast_destination_(all_address_bits_symbolic);_any_instant;_UDP_datagram_with_4_payload_bytes;_optional_lookup_hardware_addr_call_followed_by_dispatch_ip_at_the_same_instant
+    #[kani::proof]
+    pub(crate) fn lookup_hw_addr_step() {
+        eth_env!(dev, iface, now, false);
+        let mut m = any_cache_into(&mut iface.inner.neighbor_cache, now);
+        let n = any_le(2);
+        let r0 = any_route();
+        let r1 = any_route();
+        iface.routes_mut().update(|v| {
+            if n >= 1 {
+                v.push(r0).unwrap();
+            }
+            if n >= 2 {
+                v.push(r1).unwrap();
+            }
+        });
+        let dst = any_unicast_dst(&iface);
+        // ghost: instant of the latest request so far, J: silent_until >= L + 1 s
+        let has_last: bool = kani::any();
+        let last = any_instant(0, now.total_micros());
+        kani::assume(!has_last || m.silent >= plus(last, SEC));
+
+        // the code's next hop is one the reference admits
+        let nh = iface.inner.route(&dst, now);
+        assert!(ref_next_hop_ok(nh, &dst, n, &r0, &r1, now), "prop:c16_next_hop_is_destination_if_on_link_else_longest_prefix_live_gateway");
+        assert!(iface.inner.has_neighbor(&dst) == (nh.is_some() && m_lookup(&m, &nh.unwrap_or(dst), now).found()), "prop:c16_has_neighbor_iff_next_hop_resolved");
+
+        // ---- step A (optional): lookup_hardware_addr
+        let do_a: bool = kani::any();
+        let mut a_sent = false;
+        if do_a {
+            let mut st = TxState::<CAP>::new();
+            let res = iface.inner.lookup_hardware_addr(CapTx { st: &mut st }, &dst, &mut iface.fragmenter);
+            let res = match res {
+                Ok((h, _tok)) => Ok(h),
+                Err(e) => Err(e),
+            };
+            match nh {
+                None => {
+                    assert!(res == Err(DispatchError::NoRoute), "prop:c16_no_route_reported");
+                    assert!(st.frames == 0, "prop:c16_nothing_sent_without_route");
+                }
+                Some(nh) => match m_lookup(&m, &nh, now) {
+                    NeighborAnswer::Found(h) => {
+                        assert!(res == Ok(h), "prop:c16_hardware_address_is_cache_entry_of_next_hop");
+                        assert!(st.frames == 0, "prop:c16_lookup_hit_sends_nothing");
+                    }
+                    NeighborAnswer::RateLimited => {
+                        assert!(res == Err(DispatchError::NeighborPending), "prop:c16_miss_reports_neighbor_pending");
+                        assert!(st.frames == 0, "prop:c16_request_only_when_not_silent");
+                    }
+                    NeighborAnswer::NotFound => {
+                        assert!(res == Err(DispatchError::NeighborPending), "prop:c16_miss_reports_neighbor_pending");
+                        assert!(st.frames == 1, "prop:c16_exactly_one_request_per_miss");
+                        check_request_frame(&st.buf0, st.len0, &nh);
+                        a_sent = true;
+                        assert!(now >= m.silent, "prop:c16_request_only_when_not_silent");
+                        assert!(!has_last || now.total_micros() - last.total_micros() >= SEC, "prop:c16_requests_at_least_1s_apart");
+                        m.silent = plus(now, SEC);
+                    }
+                },
+            }
+            // an Ok answer is never a guess
+            if let Ok(h) = res {
+                assert!(nh.is_some() && m_lookup(&m, &nh.unwrap(), now) == NeighborAnswer::Found(h), "prop:c16_never_a_guessed_hardware_address");
+            }
+            // cache entries untouched; silent_until = now + 1 s exactly when a request went out
+            assert_cache_is(&iface.inner.neighbor_cache, &m, now);
+        }
+
+        // ---- step B: dispatch_ip of a UDP datagram to dst at the same instant
+        let data: [u8; 4] = kani::any();
+        let sport: u16 = kani::any();
+        let dport: u16 = kani::any();
+        let src = iface.inner.get_source_address(&dst).unwrap();
+        let ip = IpRepr::new(src, dst, IpProtocol::Udp, 8 + 4, 64);
+        let packet = Packet::new(ip, IpPayload::Udp(UdpRepr { src_port: sport, dst_port: dport }, &data[..]));
+        let mut st = TxState::<CAP>::new();
+        let res = iface.inner.dispatch_ip(CapTx { st: &mut st }, PacketMeta::default(), packet, &mut iface.fragmenter);
+        let mut b_sent = false;
+        let mut hit = false;
+        match nh {
+            None => {
+                assert!(res == Err(DispatchError::NoRoute), "prop:c16_no_route_reported");
+                assert!(st.frames == 0, "prop:c16_nothing_sent_without_route");
+            }
+            Some(nh) => match m_lookup(&m, &nh, now) {
+                NeighborAnswer::Found(h) => {
+                    hit = true;
+                    assert!(res == Ok(()), "prop:c16_hit_emits_the_datagram");
+                    assert!(st.frames == 1, "prop:c16_hit_emits_the_datagram");
+                    check_ip_frame(&st.buf0, st.len0, &h, &src, &dst, sport, dport, &data);
+                }
+                NeighborAnswer::RateLimited => {
+                    assert!(res == Err(DispatchError::NeighborPending), "prop:c16_miss_reports_neighbor_pending");
+                    assert!(st.frames == 0, "prop:c16_no_ip_frame_while_next_hop_unresolved");
+                }
+                NeighborAnswer::NotFound => {
+                    assert!(res == Err(DispatchError::NeighborPending), "prop:c16_miss_reports_neighbor_pending");
+                    assert!(st.frames == 1, "prop:c16_no_ip_frame_while_next_hop_unresolved");
+                    check_request_frame(&st.buf0, st.len0, &nh);
+                    b_sent = true;
+                    assert!(now >= m.silent && !a_sent, "prop:c16_request_only_when_not_silent");
+                    assert!(!has_last || now.total_micros() - last.total_micros() >= SEC, "prop:c16_requests_at_least_1s_apart");
+                    m.silent = plus(now, SEC);
+                }
+            },
+        }
+        if b_sent {
+            // prop:c16_silent_until_set_after_request is the silent part of the next assertion
+            assert!(m.silent == plus(now, SEC), "prop:c16_silent_until_set_after_request");
+        }
+        assert_cache_is(&iface.inner.neighbor_cache, &m, now);
+        // the fragmenter holds nothing (no datagram parked for a guessed address)
+        assert!(iface.fragmenter.is_empty(), "prop:c16_nothing_parked_in_fragmenter");
+
+        kani::cover!(hit && !on_link(&dst) && n == 2 && usable(&r0, &dst, now) && usable(&r1, &dst, now), "hit through a gateway chosen among two live routes");
+        kani::cover!(hit && on_link(&dst) && m.n == 3, "on-link hit in a full cache");
+        kani::cover!(a_sent, "request sent by lookup_hardware_addr");
+        kani::cover!(b_sent && !on_link(&dst), "request for a gateway sent by dispatch_ip");
+        kani::cover!(do_a && a_sent && !b_sent && res == Err(DispatchError::NeighborPending), "second attempt in the same instant is silent");
+        kani::cover!(!hit && nh.is_some() && m_key_index(&m, &nh.unwrap()).is_some() && st.frames == 1, "expired entry: not used, rediscovered");
+        kani::cover!(nh.is_none(), "no route");
+    }
+
+    // ------------------------------------------------------------------ 4a. ARP fills the cache only when validated
+    #[cfg(feature = "proto-ipv4")]
+    struct ArpIn {
+        frame: [u8; 42],
+        hdr_ok: bool,
+        oper: u16,
+        sha: [u8; 6],
+        spa: Ipv4Address,
+        tpa: Ipv4Address,
+    }
+    #[cfg(feature = "proto-ipv4")]
+    fn any_arp_frame() -> ArpIn {
+        let arp: [u8; 28] = kani::any();
+        let mut frame = [0u8; 42];
+        let eth_dst: [u8; 6] = kani::any();
+        let eth_src: [u8; 6] = kani::any();
+        frame[0..6].copy_from_slice(&eth_dst);
+        frame[6..12].copy_from_slice(&eth_src);
+        frame[12] = 0x08;
+        frame[13] = 0x06;
+        frame[14..42].copy_from_slice(&arp);
+        ArpIn {
+            frame,
+            hdr_ok: arp[0] == 0 && arp[1] == 1 && arp[2] == 0x08 && arp[3] == 0 && arp[4] == 6 && arp[5] == 4,
+            oper: ((arp[6] as u16) << 8) | arp[7] as u16,
+            sha: [arp[8], arp[9], arp[10], arp[11], arp[12], arp[13]],
+            spa: Ipv4Address::new(arp[14], arp[15], arp[16], arp[17]),
+            tpa: Ipv4Address::new(arp[24], arp[25], arp[26], arp[27]),
+        }
+    }
+    /// address class "unicast" from the octets (reference, RFC 1122 3.2.1.3): not 0.0.0.0, not 224/4, not 255.255.255.255
+    #[cfg(feature = "proto-ipv4")]
+    fn v4_class_unicast(a: &Ipv4Address) -> bool {
+        let o = a.octets();
+        !(o == [0, 0, 0, 0]) && !(o[0] >= 224 && o[0] <= 239) && !(o == [255, 255, 255, 255])
+    }
+    #[cfg(feature = "proto-ipv4")]
+    fn v4_in_own_nets(a: &Ipv4Address) -> bool {
+        let o = a.octets();
+        (o[0] == 192 && o[1] == 168 && o[2] == 1) || o[0] == 10
+    }
+    /// directed broadcast of one of the two own networks (192.168.1.0/24, 10.0.0.0/8)
+    #[cfg(feature = "proto-ipv4")]
+    fn v4_own_subnet_broadcast(a: &Ipv4Address) -> bool {
+        let o = a.octets();
+        o == [192, 168, 1, 255] || o == [10, 255, 255, 255]
+    }
+
+    // @harness props=C16 cfg=KI4 tier=q to=900 mem=8 unwind=8 opts=nomem covers=5 funcs=InterfaceInner::process_arp;ArpRepr::parse;neighbor::Cache::fill;InterfaceInner::in_same_network;InterfaceInner::has_ip_addr bounds=Ethernet_interface_with_192.168.1.1/24_and_10.0.0.5/8;_all_28_ARP_bytes_symbolic_(any_hardware/protocol_type,_lengths,_operation,_addresses);_neighbor_cache_3_slots_in_any_state;_any_instant;_sender_=_directed_broadcast_of_an_own_subnet_excluded_(finding_arp_subnet_broadcast_sender)
+    #[kani::proof]
+    pub(crate) fn cache_fill_only_validated_arp() {
+        #[cfg(feature = "proto-ipv4")]
+        {
+            eth_env!(dev, iface, now, true);
+            let m = any_cache_into(&mut iface.inner.neighbor_cache, now);
+            let a = any_arp_frame();
+            // known-finding region, checked by finding_arp_subnet_broadcast_sender
+            kani::assume(!v4_own_subnet_broadcast(&a.spa));
+            let eth = EthernetFrame::new_unchecked(&a.frame[..]);
+            let reply = iface.inner.process_arp(now, &eth);
+            let to_us = a.tpa == OWN4 || a.tpa == OWN4B;
+            let valid = a.hdr_ok
+                && to_us
+                && (a.oper == 1 || a.oper == 2)
+                && v4_class_unicast(&a.spa)
+                && v4_in_own_nets(&a.spa)
+                && a.sha[0] & 1 == 0;
+            let spa = IpAddress::Ipv4(a.spa);
+            let sha = HardwareAddress::Ethernet(EthernetAddress(a.sha));
+            let m2 = if valid {
+                // exactly (source protocol address -> source hardware address), good for 60 s from now
+                assert!(iface.inner.neighbor_cache.lookup(&spa, plus(now, 60 * SEC - 1)) == NeighborAnswer::Found(sha), "prop:c16_validated_arp_sender_learned");
+                model_after_fill(&iface.inner.neighbor_cache, &m, spa, sha, now)
+            } else {
+                m
+            };
+            // nothing else changes; an invalid packet changes nothing at all
+            assert_cache_is(&iface.inner.neighbor_cache, &m2, now);
+            // replies: only to a validated request, addressed back to the sender
+            match reply {
+                None => assert!(!(valid && a.oper == 1), "prop:c16_validated_arp_request_answered"),
+                Some(EthernetPacket::Arp(ArpRepr::EthernetIpv4 { operation, source_hardware_addr, source_protocol_addr, target_hardware_addr, target_protocol_addr })) => {
+                    assert!(valid && a.oper == 1, "prop:c16_arp_reply_only_to_validated_request");
+                    assert!(operation == ArpOperation::Reply && source_hardware_addr == OWN_MAC && source_protocol_addr == a.tpa, "prop:c16_arp_reply_from_own_addresses");
+                    assert!(target_hardware_addr.0 == a.sha && target_protocol_addr == a.spa, "prop:c16_arp_reply_to_requester");
+                }
+                Some(_) => assert!(false, "prop:c16_arp_reply_only_to_validated_request"),
+            }
+            kani::cover!(valid && m.n == 3 && m_key_index(&m, &spa).is_none(), "validated sender evicts the oldest of a full cache");
+            kani::cover!(valid && a.oper == 2 && m_key_index(&m, &spa).is_some(), "reply updates a known neighbor");
+            kani::cover!(!valid && a.hdr_ok && to_us && (a.oper == 1 || a.oper == 2) && a.sha[0] & 1 == 0 && v4_class_unicast(&a.spa), "off-link sender rejected");
+            kani::cover!(!valid && a.hdr_ok && to_us && a.oper == 1 && v4_in_own_nets(&a.spa) && a.sha[0] & 1 == 1, "multicast hardware address rejected");
+            kani::cover!(!valid && a.hdr_ok && !to_us && v4_in_own_nets(&a.spa), "request for someone else ignored");
+        }
+    }
+
+    // The directed-broadcast address of an own subnet (192.168.1.255 on 192.168.1.0/24) is not a unicast sender
+    // (`InterfaceInner::is_unicast_v4`, used for IPv4 sources in process_ipv4, says so), yet process_arp tests only the
+    // address class (`x_is_unicast`) and learns it.  Excluded from cache_fill_only_validated_arp, asserted here.
+    // @harness props=C16 cfg=KI4 kind=finding tier=q to=600 mem=6 unwind=8 opts=nomem covers=2 funcs=InterfaceInner::process_arp;InterfaceInner::is_unicast_v4 bounds=ARP_request/reply_for_192.168.1.1_from_sender_protocol_address_192.168.1.255_or_10.255.255.255,_any_sender_hardware_address;_neighbor_cache_in_any_state
+    #[kani::proof]
+    pub(crate) fn finding_arp_subnet_broadcast_sender() {
+        #[cfg(feature = "proto-ipv4")]
+        {
+            eth_env!(dev, iface, now, true);
+            let m = any_cache_into(&mut iface.inner.neighbor_cache, now);
+            let a = any_arp_frame();
+            kani::assume(a.hdr_ok && v4_own_subnet_broadcast(&a.spa));
+            // such an address is never a cache key beforehand (it cannot be learned legitimately)
+            kani::assume(m_key_index(&m, &IpAddress::Ipv4(a.spa)).is_none());
+            let eth = EthernetFrame::new_unchecked(&a.frame[..]);
+            let reply = iface.inner.process_arp(now, &eth);
+            crate::vdump!("ARP oper={} sha={:?} spa={} tpa={} reply={}", a.oper, a.sha, a.spa, a.tpa, reply.is_some());
+            crate::vdump!("lookup(spa, now) = {:?}", iface.inner.neighbor_cache.lookup(&IpAddress::Ipv4(a.spa), now));
+            assert!(!iface.inner.neighbor_cache.lookup(&IpAddress::Ipv4(a.spa), now).found(), "prop:c16_non_unicast_arp_sender_not_learned");
+            assert_cache_is(&iface.inner.neighbor_cache, &m, now);
+            kani::cover!(a.tpa == OWN4 && a.oper == 1, "request to us from the subnet broadcast address");
+            kani::cover!(m.n == 3, "full cache");
+        }
+    }
+
+    // ------------------------------------------------------------------ 4b. NDISC fills the cache only when validated
+    #[cfg(feature = "proto-ipv6")]
+    fn any_raw_lladdr() -> Option<RawHardwareAddress> {
+        if kani::any() {
+            let b: [u8; 6] = kani::any();
+            // Ethernet-only build: MAX_HARDWARE_ADDRESS_LEN = 6; a length != 6 does not parse
+            let l = if kani::any() { 6 } else { any_le(5) };
+            Some(RawHardwareAddress::from_bytes(&b[..l]))
+        } else {
+            None
+        }
+    }
+
+    // @harness props=C16 cfg=KI6 tier=q to=900 mem=8 unwind=18 opts=nomem covers=6 funcs=InterfaceInner::process_ndisc;RawHardwareAddress::parse;neighbor::Cache::fill;neighbor::Cache::lookup;InterfaceInner::has_solicited_node bounds=Ethernet_interface_fe80::1/64_+_2001:db8::1/64,_SLAAC_off;_symbolic_NdiscRepr_of_every_kind_(NA,_NS,_RS,_RA,_Redirect)_with_any_flags,_any_target,_link-layer_option_absent_or_of_length_0..=6_with_any_bytes;_any_unicast_IPv6_source_(process_ipv6_drops_others),_any_destination;_hop_limit_255_(gate_in_process_icmpv6:_ndisc_hop_limit_gate);_neighbor_cache_3_slots_in_any_state
+    #[kani::proof]
+    pub(crate) fn cache_fill_only_validated_ndisc() {
+        #[cfg(all(feature = "proto-ipv6", not(feature = "proto-ipv4")))]
+        {
+            eth_env!(dev, iface, now, true);
+            let m = any_cache_into(&mut iface.inner.neighbor_cache, now);
+            let src = match any_unicast() {
+                IpAddress::Ipv6(a) => a,
+            };
+            let dst = match any_addr() {
+                IpAddress::Ipv6(a) => a,
+            };
+            let target = match any_addr() {
+                IpAddress::Ipv6(a) => a,
+            };
+            let ip_repr = Ipv6Repr { src_addr: src, dst_addr: dst, next_header: IpProtocol::Icmpv6, payload_len: 32, hop_limit: 255 };
+            let lladdr = any_raw_lladdr();
+            let flags_bits: u8 = kani::any();
+            let kind: u8 = kani::any();
+            kani::assume(kind <= 4);
+            let repr = match kind {
+                0 => NdiscRepr::NeighborAdvert { flags: NdiscNeighborFlags::from_bits_truncate(flags_bits), target_addr: target, lladdr },
+                1 => NdiscRepr::NeighborSolicit { target_addr: target, lladdr },
+                2 => NdiscRepr::RouterSolicit { lladdr },
+                3 => NdiscRepr::RouterAdvert {
+                    hop_limit: kani::any(),
+                    flags: NdiscRouterFlags::from_bits_truncate(flags_bits),
+                    router_lifetime: Duration::from_secs(kani::any::<u16>() as u64),
+                    reachable_time: Duration::from_millis(kani::any::<u32>() as u64),
+                    retrans_time: Duration::from_millis(kani::any::<u32>() as u64),
+                    lladdr,
+                    mtu: None,
+                    prefix_info: None,
+                },
+                _ => NdiscRepr::Redirect { target_addr: target, dest_addr: dst, lladdr, redirected_hdr: None },
+            };
+            let reply = iface.inner.process_ndisc(ip_repr, repr);
+
+            // reference: who may teach us an address
+            let ll_ok = match lladdr {
+                Some(raw) => raw.len() == 6 && raw.as_bytes()[0] & 1 == 0,
+                None => false,
+            };
+            let to = target.octets();
+            let target_unicast = to[0] != 0xff && to != [0u8; 16];
+            let override_flag = flags_bits & 0b0010_0000 != 0;
+            let srca = IpAddress::Ipv6(src);
+            let known_live = m_lookup(&m, &srca, now).found();
+            let fills = match kind {
+                0 => ll_ok && target_unicast && (override_flag || !known_live),
+                1 => ll_ok && target_unicast,
+                _ => false,
+            };
+            let m2 = if fills {
+                let raw = lladdr.unwrap();
+                let b = raw.as_bytes();
+                let hw = HardwareAddress::Ethernet(EthernetAddress([b[0], b[1], b[2], b[3], b[4], b[5]]));
+                assert!(iface.inner.neighbor_cache.lookup(&srca, plus(now, 60 * SEC - 1)) == NeighborAnswer::Found(hw), "prop:c16_validated_ndisc_sender_learned");
+                model_after_fill(&iface.inner.neighbor_cache, &m, srca, hw, now)
+            } else {
+                m
+            };
+            assert_cache_is(&iface.inner.neighbor_cache, &m2, now);
+            // a solicitation is answered only for an own target reached through its solicited-node group; the
+            // advertisement goes back to the solicitor and names this interface's hardware address
+            if let Some(p) = &reply {
+                let lladdr_bad = match lladdr {
+                    Some(raw) => !ll_ok,
+                    None => false,
+                };
+                assert!(kind == 1 && (target == OWN6_LL || target == OWN6_G) && !lladdr_bad, "prop:c16_advertisement_only_for_own_target");
+                assert!(p.ip_repr().dst_addr() == srca && p.ip_repr().src_addr() == IpAddress::Ipv6(target), "prop:c16_advertisement_to_solicitor");
+            }
+            kani::cover!(kind == 0 && fills && known_live && override_flag, "override advertisement replaces a live entry");
+            kani::cover!(kind == 0 && !fills && ll_ok && target_unicast, "advertisement without override for a live entry ignored");
+            kani::cover!(kind == 1 && fills && m.n == 3 && m_key_index(&m, &srca).is_none(), "solicitation from a new neighbor evicts the oldest");
+            kani::cover!(kind <= 1 && lladdr.is_some() && !ll_ok, "multicast or mis-sized link-layer address rejected");
+            kani::cover!(kind == 1 && reply.is_some(), "solicitation answered");
+            kani::cover!(kind >= 2 && lladdr.is_some(), "router solicitation / advertisement / redirect: cache untouched");
+        }
+    }
+
+    // The off-link gate: NDISC is honoured only with hop limit 255 (RFC 4861 7.1.1/7.1.2), enforced in process_icmpv6.
+    // Byte template (RFC 4861 4.4): neighbor advertisement with a target link-layer address option.
+    // @harness props=C16 cfg=KI6 tier=q to=900 mem=8 unwind=18 opts=nomem covers=2 funcs=InterfaceInner::process_icmpv6;Icmpv6Repr::parse;NdiscRepr::parse;InterfaceInner::process_ndisc bounds=32-byte_neighbor_advertisement_template_(flags,_target,_option_type_1_or_2,_link-layer_address_symbolic);_any_hop_limit;_any_unicast_source;_destination_fe80::1;_empty_neighbor_cache;_no_sockets
+    #[kani::proof]
+    pub(crate) fn ndisc_hop_limit_gate() {
+        #[cfg(all(feature = "proto-ipv6", not(feature = "proto-ipv4")))]
+        {
+            eth_env!(dev, iface, now, true);
+            let src = match any_unicast() {
+                IpAddress::Ipv6(a) => a,
+            };
+            let hop: u8 = kani::any();
+            let ip_repr = Ipv6Repr { src_addr: src, dst_addr: OWN6_LL, next_header: IpProtocol::Icmpv6, payload_len: 32, hop_limit: hop };
+            let mut b = [0u8; 32];
+            b[0] = 136;
+            b[4] = kani::any::<u8>() & 0xe0;
+            let tgt: [u8; 16] = kani::any();
+            b[8..24].copy_from_slice(&tgt);
+            let opt_is_target: bool = kani::any();
+            b[24] = if opt_is_target { 2 } else { 1 };
+            b[25] = 1;
+            let mac: [u8; 6] = kani::any();
+            b[26..32].copy_from_slice(&mac);
+            let mut storage: [SocketStorage; 1] = [SocketStorage::EMPTY];
+            let mut sockets = SocketSet::new(&mut storage[..]);
+            let reply = iface.inner.process_icmpv6(&mut sockets, ip_repr, &b[..]);
+            let srca = IpAddress::Ipv6(src);
+            let learned = iface.inner.neighbor_cache.lookup(&srca, now).found();
+            let valid = opt_is_target && mac[0] & 1 == 0 && tgt[0] != 0xff && tgt != [0u8; 16];
+            if hop != 255 {
+                assert!(!learned, "prop:c16_ndisc_from_off_link_ignored");
+            }
+            assert!(learned == (hop == 255 && valid), "prop:c16_validated_ndisc_sender_learned");
+            if learned {
+                assert!(iface.inner.neighbor_cache.lookup(&srca, now) == NeighborAnswer::Found(HardwareAddress::Ethernet(EthernetAddress(mac))), "prop:c16_validated_ndisc_sender_learned");
+            }
+            assert!(reply.is_none(), "prop:c16_advertisement_never_answered");
+            kani::cover!(learned, "advertisement with hop limit 255 learned");
+            kani::cover!(!learned && valid && hop == 254, "forwarded advertisement ignored");
+        }
+    }
+
+    // ------------------------------------------------------------------ 5. socket data survives an unresolved neighbor
+    // @harness props=C16 cfg=KI4 tier=q to=900 mem=8 unwind=8 opts=nomem covers=4 funcs=Interface::socket_egress;udp::Socket::dispatch;InterfaceInner::dispatch_ip;InterfaceInner::lookup_hardware_addr;InterfaceInner::has_neighbor;socket_meta::Meta::egress_permitted;socket_meta::Meta::neighbor_missing;socket_meta::Meta::poll_at bounds=one_UDP_socket_with_one_queued_4-byte_datagram_to_any_on-link_host_192.168.1.x;_neighbor_cache_3_slots_in_any_state_without_a_live_entry_for_it;_any_silent_until;_device_with_or_without_a_free_transmit_buffer;_second_egress_after_the_address_was_learned
+    #[kani::proof]
+    pub(crate) fn egress_keeps_data_when_neighbor_unknown() {
+        #[cfg(all(feature = "proto-ipv4", feature = "socket-udp"))]
+        {
+            use crate::socket::udp as sudp;
+            let mut dev = CapDev::<CAP>::new(Medium::Ethernet, 1500, ChecksumCapabilities::ignored());
+            let now = any_instant(0, T_MAX);
+            let mut iface = Interface::new(Config::new(HardwareAddress::Ethernet(OWN_MAC)), &mut dev, now);
+            push_own_addrs(&mut iface, false);
+            let m = any_cache_into(&mut iface.inner.neighbor_cache, now);
+            let x: u8 = kani::any();
+            kani::assume(x != 255);
+            let dst4 = Ipv4Address::new(192, 168, 1, x);
+            let dst = IpAddress::Ipv4(dst4);
+            // the hardware address of dst is unknown: no entry, or an expired one
+            kani::assume(!m_lookup(&m, &dst, now).found());
+
+            let mut rx_meta = [sudp::PacketMetadata::EMPTY; 1];
+            let mut rx_pay = [0u8; 8];
+            let mut tx_meta = [sudp::PacketMetadata::EMPTY; 1];
+            let mut tx_pay = [0u8; 8];
+            let mut sock = sudp::Socket::new(
+                sudp::PacketBuffer::new(&mut rx_meta[..], &mut rx_pay[..]),
+                sudp::PacketBuffer::new(&mut tx_meta[..], &mut tx_pay[..]),
+            );
+            let lport: u16 = kani::any();
+            let rport: u16 = kani::any();
+            kani::assume(lport != 0 && rport != 0);
+            sock.bind(lport).unwrap();
+            let data: [u8; 4] = kani::any();
+            sock.send_slice(&data, (dst, rport)).unwrap();
+            let mut storage: [SocketStorage; 1] = [SocketStorage::EMPTY];
+            let mut sockets = SocketSet::new(&mut storage[..]);
+            let h = sockets.add(sock);
+
+            dev.tx_ok = kani::any();
+            let r1 = iface.socket_egress(&mut dev, &mut sockets);
+
+            // the datagram is still queued, nothing claims to have been sent
+            assert!(sockets.get::<sudp::Socket>(h).send_queue() == 1, "prop:c16_datagram_stays_queued_while_neighbor_unknown");
+            assert!(r1 == PollResult::None, "prop:c16_unresolved_egress_reports_no_progress");
+            // at most one frame, and it is the ARP request - never the datagram to a guessed address
+            let arp_sent = dev.tx.frames == 1;
+            assert!(dev.tx.frames <= 1, "prop:c16_at_most_one_arp_request");
+            assert!(arp_sent == (dev.tx_ok && now >= m.silent), "prop:c16_request_only_when_not_silent");
+            if arp_sent {
+                check_request_frame(&dev.tx.buf0, dev.tx.len0, &dst);
+            }
+            let mut m1 = m;
+            if arp_sent {
+                m1.silent = plus(now, SEC);
+            }
+            assert_cache_is(&iface.inner.neighbor_cache, &m1, now);
+            // the socket waits for that neighbor: no egress before now + 1 s unless the neighbor is found
+            {
+                let item = sockets.items_mut().next().unwrap();
+                if dev.tx_ok {
+                    let t = any_instant(now.total_micros(), now.total_micros() + 2 * SEC);
+                    let permitted = item.meta.egress_permitted(t, |_| false);
+                    assert!(permitted == (t.total_micros() >= now.total_micros() + SEC), "prop:c16_socket_silenced_for_1s_while_neighbor_missing");
+                    assert!(item.meta.poll_at(PollAt::Now, |_| false, now) == PollAt::Time(plus(now, SEC)), "prop:c16_silenced_socket_polled_at_end_of_silence");
+                    assert!(item.meta.poll_at(PollAt::Now, |a| a == dst, now) == PollAt::Now, "prop:c16_socket_unsilenced_when_neighbor_found");
+                    assert!(item.meta.poll_at(PollAt::Now, |a| a != dst, now) == PollAt::Time(plus(now, SEC)), "prop:c16_socket_waits_for_its_own_neighbor");
+                } else {
+                    // device exhausted: nothing was attempted, the socket is not silenced
+                    assert!(item.meta.egress_permitted(now, |_| false), "prop:c16_exhausted_device_does_not_silence_socket");
+                }
+            }
+
+            // ---- the neighbor answers; the next egress (same instant) transmits the datagram, unmodified, to it
+            let hw = any_hw();
+            iface.inner.neighbor_cache.fill(dst, hw, now);
+            dev.tx_ok = true;
+            let r2 = iface.socket_egress(&mut dev, &mut sockets);
+            assert!(r2 == PollResult::SocketStateChanged, "prop:c16_datagram_sent_once_neighbor_known");
+            assert!(dev.tx.frames == arp_sent as usize + 1, "prop:c16_datagram_sent_once_neighbor_known");
+            assert!(sockets.get::<sudp::Socket>(h).send_queue() == 0, "prop:c16_datagram_sent_once_neighbor_known");
+            let src = IpAddress::Ipv4(OWN4);
+            if arp_sent {
+                check_ip_frame(&dev.tx.buf1, dev.tx.len1, &hw, &src, &dst, lport, rport, &data);
+            } else {
+                check_ip_frame(&dev.tx.buf0, dev.tx.len0, &hw, &src, &dst, lport, rport, &data);
+            }
+            kani::cover!(arp_sent && m.n == 3, "ARP request sent, cache full of other neighbors");
+            kani::cover!(!arp_sent && dev.tx.frames == 1 && now < m.silent, "rate limited: no request, datagram kept");
+            kani::cover!(m_key_index(&m, &dst).is_some() && arp_sent, "expired entry not used, rediscovered");
+            kani::cover!(m.silent > now && m.silent.total_micros() - now.total_micros() == SEC, "request had just been sent");
+        }
+    }
+
+    // @harness props=C16 kind=mustfail cfg=KI4 tier=q to=900 mem=8 unwind=8 opts=nomem
+    #[kani::proof]
+    pub(crate) fn iface_neighbor_must_fail() {
+        eth_env!(dev, iface, now, false);
+        let m = any_cache_into(&mut iface.inner.neighbor_cache, now);
+        let dst = any_unicast_dst(&iface);
+        let mut st = TxState::<CAP>::new();
+        let res = iface.inner.lookup_hardware_addr(CapTx { st: &mut st }, &dst, &mut iface.fragmenter);
+        // false: a miss outside the silent second does send a request
+        assert!(st.frames == 0, "prop:deliberately_false_lookup_never_sends");
+    }
 }
